@@ -42,9 +42,26 @@ def _flip(test):
     return False, test
 
 
+def _negate(test):
+    if isinstance(test, ast.UnaryOp) and isinstance(test.op, ast.Not):
+        return test.operand
+    if isinstance(test, ast.Compare) and len(test.ops) == 1:
+        inv = {ast.Is: ast.IsNot, ast.IsNot: ast.Is, ast.Eq: ast.NotEq, ast.NotEq: ast.Eq, ast.In: ast.NotIn, ast.NotIn: ast.In}
+        k = type(test.ops[0])
+        if k in inv:
+            return ast.copy_location(ast.Compare(left=test.left, ops=[inv[k]()], comparators=test.comparators), test)
+    return ast.copy_location(ast.UnaryOp(op=ast.Not(), operand=test), test)
+
+
 class _Polarity(ast.NodeTransformer):
     def visit_If(self, node):
         self.generic_visit(node)
+        # an arm that does nothing is no arm: `if c: pass else: B` is `if not c: B`
+        if node.orelse and all(isinstance(s_, ast.Pass) for s_ in node.orelse):
+            node.orelse = []
+        if node.body and all(isinstance(s_, ast.Pass) for s_ in node.body) and node.orelse:
+            node.test = _negate(node.test)
+            node.body, node.orelse = node.orelse, []
         if node.body and node.orelse:
             flipped, t = _flip(node.test)
             if flipped:
@@ -331,10 +348,82 @@ def _single_exit(stmts, assign):
                 new = ast.copy_location(ast.If(test=st.test, body=body + rest_s, orelse=orelse), st)
                 return out + [new], rt
             return None
+        if isinstance(st, (ast.While, ast.For)) and not st.orelse and _has_return(st):
+            # a search loop:  loop { ... if c: return e ... }  return <constant>   ->   x = <constant>; loop { ... x = e; break ... }
+            rest = stmts[i + 1:]
+            final = None
+            if not rest:
+                final = ast.Constant(value=None)
+            elif len(rest) == 1 and isinstance(rest[0], ast.Return) and (rest[0].value is None or isinstance(rest[0].value, ast.Constant)):
+                final = rest[0].value if rest[0].value is not None else ast.Constant(value=None)
+            if final is None:
+                return None
+
+            def in_loop(body):
+                res = []
+                for s_ in body:
+                    if isinstance(s_, ast.Return):
+                        res.extend(assign(s_.value if s_.value is not None else ast.Constant(value=None), s_))
+                        res.append(ast.copy_location(ast.Break(), s_))
+                        return res
+                    if isinstance(s_, ast.If) and _has_return(s_):
+                        b_, o_ = in_loop(s_.body), in_loop(s_.orelse)
+                        if b_ is None or o_ is None:
+                            return None
+                        res.append(ast.copy_location(ast.If(test=s_.test, body=b_ or [ast.Pass()], orelse=o_), s_))
+                    elif _has_return(s_):
+                        return None
+                    else:
+                        res.append(s_)
+                return res
+            lb = in_loop(st.body)
+            if lb is None:
+                return None
+            loop = copy.copy(st)
+            loop.body = lb
+            return out + list(assign(final, st)) + [loop], True
         if _has_return(st):
-            return None          # a return inside a loop / try / with: not a tail return
+            return None          # a return inside try / with / a nested loop: not a tail return
         out.append(st)
     return out, False
+
+
+def _thread_tests(seq):
+    """[... , S, `if t: X else: Y`] where every path through S ends by assigning the temporary t: the test is pushed back into
+    S - an arm that set t to a constant continues with X (or Y) directly, an arm that set t = E continues with `if E: X else: Y`.
+    (Jump threading; X and Y are duplicated, which is exact.)"""
+    if len(seq) < 2 or not isinstance(seq[-1], ast.If) or not isinstance(seq[-1].test, ast.Name):
+        return seq
+    t, tail = seq[-1].test.id, seq[-1]
+
+    def cont(value, at):
+        if isinstance(value, ast.Constant):
+            return copy.deepcopy(tail.body if value.value else tail.orelse)
+        return [ast.copy_location(ast.If(test=value, body=copy.deepcopy(tail.body), orelse=copy.deepcopy(tail.orelse)), at)]
+
+    def push(stmts):
+        """stmts with a trailing `t = V` replaced by the continuation; None if some path does not end that way."""
+        if not stmts:
+            return None
+        last = stmts[-1]
+        if isinstance(last, ast.Assign) and len(last.targets) == 1 and isinstance(last.targets[0], ast.Name) and last.targets[0].id == t:
+            return stmts[:-1] + cont(last.value, last)
+        if isinstance(last, ast.If):
+            b, o = push(last.body), push(last.orelse)
+            if b is None or o is None:
+                return None
+            return stmts[:-1] + [ast.copy_location(ast.If(test=last.test, body=b or [ast.Pass()], orelse=o), last)]
+        return None
+    uses = sum(1 for s_ in seq for n in ast.walk(s_) if isinstance(n, ast.Name) and n.id == t and isinstance(n.ctx, ast.Load))
+    if uses != 1:
+        return seq
+    # the statements that compute t: the maximal suffix before the test whose last statement assigns t on every path
+    new = push(seq[:-1])
+    if new is None:
+        return seq
+    if any(isinstance(n, ast.Name) and n.id == t for s_ in new for n in ast.walk(s_)):
+        return seq
+    return new
 
 
 class _Inliner:
@@ -507,6 +596,21 @@ class _Inliner:
                             mk = lambda e, at_, st=st: [ast.copy_location(ast.Return(value=e), st)]
                         elif isinstance(st, ast.Expr) and st.value is call:
                             mk = lambda e, at_, st=st: [ast.copy_location(ast.Expr(value=e), st)]
+                        elif isinstance(st, (ast.If, ast.While)) and st.test is call and isinstance(st, ast.If):
+                            # `if helper(..): X else: Y` - the helper's verdict goes through a temporary which the threading
+                            # pass below (_thread_tests) pushes back into the arms that computed it
+                            tname = f"ret__h{next(self.counter)}"
+                            mk = lambda e, at_, st=st, tname=tname: [ast.copy_location(
+                                ast.Assign(targets=[ast.Name(id=tname, ctx=ast.Store())], value=e), st)]
+                            conv = _single_exit(ret[1], mk)
+                            if conv is None:
+                                self.n -= 1
+                                continue
+                            st.test = ast.copy_location(ast.Name(id=tname, ctx=ast.Load()), st)
+                            seq = self.process(stmts + conv[0], selfname, clsname, False) + [st]
+                            out.extend(_thread_tests(seq))
+                            done = True
+                            break
                         else:
                             self.n -= 1
                             continue
@@ -666,12 +770,18 @@ def inline_new_helpers_program(trees, known_by_rel):
             inl = _Inliner(local, counter)
             for st in tree.body:
                 if isinstance(st, ast.FunctionDef):
+                    n0 = inl.n
                     st.body = inl.process(st.body, None, None)
+                    if inl.n != n0:
+                        st._inlined = True
                 elif isinstance(st, ast.ClassDef):
                     for m in st.body:
                         if isinstance(m, ast.FunctionDef) and m.args.args:
                             static = any(ast.unparse(d) == "staticmethod" for d in m.decorator_list)
+                            n0 = inl.n
                             m.body = inl.process(m.body, None if static else m.args.args[0].arg, st.name)
+                            if inl.n != n0:
+                                m._inlined = True
             n_round += inl.n
         total += n_round
         used = set()
@@ -689,6 +799,212 @@ def inline_new_helpers_program(trees, known_by_rel):
         if n_round == 0:
             break
     return total
+
+
+# ------------------------------------------------------------------------------------------------ P4c iterator helpers
+def _iterator_form(fn):
+    """A helper that only produces a sequence:  `for T in IT: [if C:] yield E`,  `return [E for T in IT if C]`,
+    `return (E for ...)`, `yield from (E for ...)`.  Returns (T, IT, E, [conditions]) or None."""
+    if fn.args.vararg or fn.args.kwarg or fn.args.posonlyargs or fn.args.kwonlyargs or fn.args.defaults:
+        return None
+    body = [s_ for s_ in fn.body if not (isinstance(s_, ast.Expr) and isinstance(s_.value, ast.Constant) and isinstance(s_.value.value, str))]
+    if len(body) != 1:
+        return None
+    st = body[0]
+    if isinstance(st, ast.For) and not st.orelse and len(st.body) == 1:
+        inner, conds = st.body[0], []
+        while isinstance(inner, ast.If) and not inner.orelse and len(inner.body) == 1:
+            conds.append(inner.test)
+            inner = inner.body[0]
+        if isinstance(inner, ast.Expr) and isinstance(inner.value, ast.Yield) and inner.value.value is not None:
+            return st.target, st.iter, inner.value.value, conds
+        return None
+    comp = None
+    if isinstance(st, ast.Return) and isinstance(st.value, (ast.ListComp, ast.GeneratorExp)):
+        comp = st.value
+    elif isinstance(st, ast.Expr) and isinstance(st.value, ast.YieldFrom) and isinstance(st.value.value, (ast.ListComp, ast.GeneratorExp)):
+        comp = st.value.value
+    if comp is not None and len(comp.generators) == 1 and not comp.generators[0].is_async:
+        g = comp.generators[0]
+        return g.target, g.iter, comp.elt, list(g.ifs)
+    return None
+
+
+class _Subst(ast.NodeTransformer):
+    def __init__(self, mapping):
+        self.mapping = mapping
+
+    def visit_Name(self, node):
+        if node.id in self.mapping and isinstance(node.ctx, ast.Load):
+            return copy.deepcopy(self.mapping[node.id])
+        return node
+
+
+def _target_names(t):
+    return [n.id for n in ast.walk(t) if isinstance(n, ast.Name)]
+
+
+def inline_iterator_helpers_program(trees, known_by_rel):
+    """P4c: a new helper that only pairs / filters / maps a sequence for its callers' loops is written back into the loops:
+    `for X in self.h(a)` becomes `for T in IT` with X replaced by the element expression (comprehensions) or bound to it in
+    the first statement of the body (for statements)."""
+    helpers = {}
+    for rel, tree in trees.items():
+        known = known_by_rel.get(rel)
+        if known is None:
+            continue
+        for st in tree.body:
+            if isinstance(st, ast.FunctionDef) and st.name not in known:
+                f = _iterator_form(st)
+                if f is not None:
+                    helpers[("f", rel, st.name)] = (st, f, None)
+            elif isinstance(st, ast.ClassDef):
+                for m in st.body:
+                    if isinstance(m, ast.FunctionDef) and f"{st.name}.{m.name}" not in known and not m.decorator_list and m.args.args:
+                        f = _iterator_form(m)
+                        if f is not None:
+                            helpers[("m", st.name, m.name)] = (m, f, m.args.args[0].arg)
+    if not helpers:
+        return 0
+    bases = {}
+    for tree in trees.values():
+        for st in tree.body:
+            if isinstance(st, ast.ClassDef):
+                bases[st.name] = [ast.unparse(b).split(".")[-1] for b in st.bases]
+
+    def mro(c):
+        out, todo = [], [c]
+        while todo:
+            k = todo.pop(0)
+            if k in out or k is None:
+                continue
+            out.append(k)
+            todo.extend(bases.get(k, []))
+        return out
+    count = [0]
+
+    def resolve(call, rel, selfname, clsname):
+        if not isinstance(call, ast.Call) or call.keywords:
+            return None
+        f = call.func
+        if isinstance(f, ast.Name) and ("f", rel, f.id) in helpers:
+            return helpers[("f", rel, f.id)]
+        if isinstance(f, ast.Attribute) and isinstance(f.value, ast.Name) and selfname and f.value.id == selfname and clsname:
+            for k in mro(clsname):
+                if ("m", k, f.attr) in helpers:
+                    return helpers[("m", k, f.attr)]
+        return None
+
+    def instantiate(call, helper, selfname, avoid):
+        fn, (T, IT, E, conds), hself = helper
+        params = [a.arg for a in fn.args.args][(1 if hself else 0):]
+        if len(params) != len(call.args) or not all(_simple_arg(a) for a in call.args):
+            return None
+        mapping = {p_: a for p_, a in zip(params, call.args)}
+        if hself and selfname:
+            mapping[hself] = ast.Name(id=selfname, ctx=ast.Load())
+        # loop variables of the helper that clash with names of the caller get fresh names
+        ren = {}
+        for nm in _target_names(T):
+            if nm in avoid or nm in mapping:
+                k = 0
+                while f"{nm}_{k}" in avoid:
+                    k += 1
+                ren[nm] = f"{nm}_{k}"
+        T2 = copy.deepcopy(T)
+        for n in ast.walk(T2):
+            if isinstance(n, ast.Name) and n.id in ren:
+                n.id = ren[n.id]
+        mapping.update({a: ast.Name(id=b, ctx=ast.Load()) for a, b in ren.items()})
+        sub = lambda e: _Subst(mapping).visit(copy.deepcopy(e))
+        return T2, sub(IT), sub(E), [sub(c) for c in conds]
+
+    def names_in(fn):
+        return {n.id for n in ast.walk(fn) if isinstance(n, ast.Name)}
+
+    class V(ast.NodeTransformer):
+        def __init__(self, rel, selfname, clsname, fn):
+            self.rel, self.selfname, self.clsname, self.fn = rel, selfname, clsname, fn
+
+        def _comp(self, node):
+            self.generic_visit(node)
+            for gi, g in enumerate(node.generators):
+                h = resolve(g.iter, self.rel, self.selfname, self.clsname)
+                if h is None:
+                    continue
+                xs = _target_names(g.target)
+                inst = instantiate(g.iter, h, self.selfname, names_in(self.fn) - set(xs))
+                if inst is None:
+                    continue
+                T, IT, E, conds = inst
+                if isinstance(g.target, ast.Name):
+                    mapping = {g.target.id: E}
+                elif isinstance(g.target, ast.Tuple) and isinstance(E, ast.Tuple) and len(E.elts) == len(g.target.elts) \
+                        and all(isinstance(e, ast.Name) for e in g.target.elts):
+                    mapping = {t.id: e for t, e in zip(g.target.elts, E.elts)}
+                else:
+                    continue
+                # names of X that survive as loop variables of the helper are not substituted away
+                sub = _Subst({k: v for k, v in mapping.items() if not (isinstance(v, ast.Name) and v.id == k)})
+                g.target, g.iter = T, IT
+                g.ifs = conds + [sub.visit(i) for i in g.ifs]
+                for later in node.generators[gi + 1:]:
+                    later.iter = sub.visit(later.iter)
+                    later.ifs = [sub.visit(i) for i in later.ifs]
+                if isinstance(node, ast.DictComp):
+                    node.key, node.value = sub.visit(node.key), sub.visit(node.value)
+                else:
+                    node.elt = sub.visit(node.elt)
+                count[0] += 1
+            return node
+        visit_ListComp = visit_GeneratorExp = visit_SetComp = visit_DictComp = _comp
+
+        def visit_For(self, node):
+            self.generic_visit(node)
+            h = resolve(node.iter, self.rel, self.selfname, self.clsname)
+            if h is None:
+                return node
+            inst = instantiate(node.iter, h, self.selfname, names_in(self.fn))
+            if inst is None:
+                return node
+            T, IT, E, conds = inst
+            bind = ast.Assign(targets=[node.target], value=E, lineno=node.lineno)
+            for n in ast.walk(bind.targets[0]):
+                if hasattr(n, "ctx"):
+                    n.ctx = ast.Store()
+            body = [bind] + node.body
+            for c in reversed(conds):
+                body = [ast.If(test=c, body=body, orelse=[])]
+            node.target, node.iter, node.body = T, IT, body
+            count[0] += 1
+            return node
+
+    for rel, tree in trees.items():
+        for st in tree.body:
+            if isinstance(st, ast.FunctionDef):
+                V(rel, None, None, st).visit(st)
+            elif isinstance(st, ast.ClassDef):
+                for m in st.body:
+                    if isinstance(m, ast.FunctionDef) and m.args.args and ("m", st.name, m.name) not in helpers:
+                        static = any(ast.unparse(d) == "staticmethod" for d in m.decorator_list)
+                        V(rel, None if static else m.args.args[0].arg, st.name, m).visit(m)
+    used = set()
+    for tree in trees.values():
+        for n in ast.walk(tree):
+            if isinstance(n, ast.Attribute):
+                used.add(n.attr)
+            elif isinstance(n, ast.Name):
+                used.add(n.id)
+    for rel, tree in trees.items():
+        for st in list(tree.body):
+            if isinstance(st, ast.FunctionDef) and ("f", rel, st.name) in helpers and st.name not in used:
+                tree.body.remove(st)
+            elif isinstance(st, ast.ClassDef):
+                for m in list(st.body):
+                    if isinstance(m, ast.FunctionDef) and ("m", st.name, m.name) in helpers and m.name not in used:
+                        st.body.remove(m)
+        ast.fix_missing_locations(tree)
+    return count[0]
 
 
 # ------------------------------------------------------------------------------------------------ P3b
@@ -760,6 +1076,26 @@ def _propagate_inlined_aliases(tree):
     replaced by `a` and the resulting `a = a` statements are dropped."""
     n = 0
     for fn in [x for x in ast.walk(tree) if isinstance(x, ast.FunctionDef)]:
+        # `a, b = (a, b__hK)` (the inlined helper handed both back): independent element-wise bindings
+        def split(body):
+            out = []
+            for st in body:
+                for nm in ("body", "orelse", "finalbody"):
+                    b = getattr(st, nm, None)
+                    if isinstance(b, list) and b and isinstance(b[0], ast.stmt) and not isinstance(st, (ast.FunctionDef, ast.ClassDef)):
+                        setattr(st, nm, split(b))
+                if isinstance(st, ast.Assign) and len(st.targets) == 1 and isinstance(st.targets[0], ast.Tuple) \
+                        and isinstance(st.value, ast.Tuple) and len(st.value.elts) == len(st.targets[0].elts) \
+                        and all(isinstance(e, ast.Name) for e in st.targets[0].elts + st.value.elts) \
+                        and any("__h" in e.id for e in st.value.elts):
+                    tg = [e.id for e in st.targets[0].elts]
+                    if all(v.id == t_ or v.id not in tg for t_, v in zip(tg, st.value.elts)):
+                        for t_, v in zip(st.targets[0].elts, st.value.elts):
+                            out.append(ast.copy_location(ast.Assign(targets=[t_], value=v), st))
+                        continue
+                out.append(st)
+            return out
+        fn.body = split(fn.body)
         changed = True
         while changed:
             changed = False
@@ -802,8 +1138,18 @@ def _propagate_inlined_aliases(tree):
                     continue
                 src = st.value.id
                 # the source may only be re-bound from the alias itself
-                others = [o for o in plain.get(src, []) if not (isinstance(o, ast.Assign) and isinstance(o.value, ast.Name)
-                                                                 and o.value.id == name) and getattr(o, "lineno", 0) >= st.lineno and o is not st]
+                # (re-bindings `src = src` left by an earlier round, and from another in-place alias of the same source, are the
+                # same object too)
+                def same_object(o):
+                    if not (isinstance(o, ast.Assign) and isinstance(o.value, ast.Name) and len(o.targets) == 1):
+                        return False
+                    v = o.value.id
+                    if v in (name, src):
+                        return True
+                    b = plain.get(v, [])
+                    return "__h" in v and len(b) == 1 and isinstance(b[0], ast.Assign) and isinstance(b[0].value, ast.Name) \
+                        and b[0].value.id == src
+                others = [o for o in plain.get(src, []) if not same_object(o) and getattr(o, "lineno", 0) >= st.lineno and o is not st]
                 if any(o for o in others if o is not st):
                     continue
                 for x in ast.walk(fn):
@@ -828,6 +1174,141 @@ def _propagate_inlined_aliases(tree):
             return out
         fn.body = strip(fn.body) or fn.body
     return n
+
+
+def _definitely_assigns(stmts, name):
+    for st in stmts:
+        if isinstance(st, ast.Assign) and any(isinstance(t, ast.Name) and t.id == name for t in st.targets):
+            return True
+        if isinstance(st, ast.If) and st.orelse and _definitely_assigns(st.body, name) and _definitely_assigns(st.orelse, name):
+            return True
+    return False
+
+
+def _coalesce_result_locals(tree):
+    """After P4 a helper's working variable survives as `y__hK` next to the caller's variable x it is finally copied into:
+    `y__hK = A` ... `x = y__hK` / `x = -y__hK` on every path.  When x is not read anywhere in that stretch and y__hK is not used
+    after it, the two never hold different values anybody looks at, so y__hK is renamed to x (and `x = x` dropped): the helper's
+    variable and the caller's are one variable again, as they were before the helper was extracted."""
+    n = 0
+    for fn in [x for x in ast.walk(tree) if isinstance(x, ast.FunctionDef)]:
+        names = sorted({x.id for x in ast.walk(fn) if isinstance(x, ast.Name) and "__h" in x.id})
+        for y in names:
+            # the innermost statement list that contains every occurrence of y
+            def find(body):
+                idx = [k for k, st in enumerate(body) if any(isinstance(x, ast.Name) and x.id == y for x in ast.walk(st))]
+                if not idx:
+                    return None
+                if len(idx) == 1:
+                    st = body[idx[0]]
+                    for nm in ("body", "orelse", "finalbody"):
+                        b = getattr(st, nm, None)
+                        if isinstance(b, list) and b and isinstance(b[0], ast.stmt):
+                            others = [getattr(st, m2, None) for m2 in ("body", "orelse", "finalbody") if m2 != nm]
+                            inside_only = not any(isinstance(x, ast.Name) and x.id == y for o in others if isinstance(o, list)
+                                                  for s_ in o for x in ast.walk(s_)) and not any(
+                                isinstance(x, ast.Name) and x.id == y for f_ in ("test", "iter", "target") if hasattr(st, f_)
+                                for x in ast.walk(getattr(st, f_)))
+                            if inside_only:
+                                r = find(b)
+                                if r is not None:
+                                    return r
+                return body, idx[0], idx[-1]
+            r = find(fn.body)
+            if r is None:
+                continue
+            body, i, j = r
+            region = body[i:j + 1]
+            first = region[0]
+            if not (isinstance(first, ast.Assign) and any(isinstance(x, ast.Name) and x.id == y and isinstance(x.ctx, ast.Store)
+                                                          for t in first.targets for x in ast.walk(t))):
+                continue
+            xs = set()
+            for st in ast.walk(ast.Module(body=region, type_ignores=[])):
+                if isinstance(st, ast.Assign) and len(st.targets) == 1 and isinstance(st.targets[0], ast.Name) and st.targets[0].id != y:
+                    v = st.value
+                    if isinstance(v, ast.UnaryOp) and isinstance(v.op, ast.USub):
+                        v = v.operand
+                    if isinstance(v, ast.Name) and v.id == y:
+                        xs.add(st.targets[0].id)
+            if len(xs) != 1:
+                continue
+            x = next(iter(xs))
+            if "__h" in x:
+                continue
+            mod = ast.Module(body=region, type_ignores=[])
+            if any(isinstance(n_, ast.Name) and n_.id == x and isinstance(n_.ctx, ast.Load) for n_ in ast.walk(mod)):
+                continue
+            # every other store to x in the stretch must be one of the copies
+            bad = False
+            for st in ast.walk(mod):
+                if isinstance(st, (ast.AugAssign, ast.For, ast.With, ast.comprehension)) and any(
+                        isinstance(n_, ast.Name) and n_.id == x and isinstance(n_.ctx, ast.Store) for n_ in ast.walk(st)
+                        if not isinstance(st, ast.For) or n_ in ast.walk(st.target)):
+                    bad = True
+            if bad or not _definitely_assigns(region, x):
+                continue
+            for n_ in ast.walk(mod):
+                if isinstance(n_, ast.Name) and n_.id == y:
+                    n_.id = x
+            n += 1
+    if n:
+        _strip_self_assignments(tree)
+    return n
+
+
+def _strip_self_assignments(tree):
+    def strip(body):
+        out = []
+        for st in body:
+            for nm in ("body", "orelse", "finalbody"):
+                b = getattr(st, nm, None)
+                if isinstance(b, list) and b and isinstance(b[0], ast.stmt) and not isinstance(st, (ast.FunctionDef, ast.ClassDef)):
+                    nb = strip(b)
+                    if nm == "body" and not nb:
+                        nb = [ast.copy_location(ast.Pass(), st)]
+                    setattr(st, nm, nb)
+            if isinstance(st, ast.Assign) and len(st.targets) == 1 and isinstance(st.targets[0], ast.Name) \
+                    and isinstance(st.value, ast.Name) and st.value.id == st.targets[0].id:
+                continue
+            out.append(st)
+        return out
+    for fn in [x for x in ast.walk(tree) if isinstance(x, ast.FunctionDef)]:
+        fn.body = strip(fn.body) or fn.body
+
+
+def _monotone_lines(tree):
+    """Statements spliced in by P4 all carry the line of the call they replaced.  Rules order statements by line, so in every
+    function that received inlined code the statements are re-numbered to be strictly increasing in textual order (later
+    statements of that function shift down by the number of lines inserted).  Functions without inlined code keep their exact
+    lines; for the others a reported line is approximate, which it was anyway."""
+    for fn in [x for x in ast.walk(tree) if isinstance(x, ast.FunctionDef) and getattr(x, "_inlined", False)]:
+        prev = [fn.lineno]
+
+        def shift(node, d):
+            for x in ast.walk(node):
+                if hasattr(x, "lineno") and x.lineno is not None:
+                    x.lineno += d
+                if getattr(x, "end_lineno", None) is not None:
+                    x.end_lineno += d
+
+        def visit(body):
+            for st in body:
+                if getattr(st, "lineno", None) is None:
+                    continue
+                if st.lineno <= prev[0]:
+                    shift(st, prev[0] + 1 - st.lineno)
+                prev[0] = st.lineno
+                for nm in ("body", "orelse", "finalbody"):
+                    b = getattr(st, nm, None)
+                    if isinstance(b, list) and b and isinstance(b[0], ast.stmt):
+                        visit(b)
+                for h in getattr(st, "handlers", []) or []:
+                    visit(h.body)
+                end = max([getattr(x, "lineno", 0) or 0 for x in ast.walk(st)] + [st.lineno])
+                st.end_lineno = max(end, prev[0])
+                prev[0] = max(prev[0], end)
+        visit(fn.body)
 
 
 # ------------------------------------------------------------------------------------------------ P4b
@@ -904,11 +1385,15 @@ def canonicalise_program(trees, known_by_rel, params_by_rel=None):
         tree.body = _restructure(tree.body)
         _AttrCalls().visit(tree)
         rename_private_functions(tree, known_by_rel.get(rel), (params_by_rel or {}).get(rel))
-    n_inl = inline_new_helpers_program(trees, known_by_rel)
+    n_inl = inline_iterator_helpers_program(trees, known_by_rel)
+    n_inl += inline_new_helpers_program(trees, known_by_rel)
     for rel, tree in trees.items():
         if n_inl:
             _propagate_inlined_aliases(tree)
+            _coalesce_result_locals(tree)
         _Polarity().visit(tree)
         tree.body = _restructure(tree.body)
         ast.fix_missing_locations(tree)
+        if n_inl:
+            _monotone_lines(tree)
     return trees
